@@ -1,19 +1,20 @@
 #!/venv/bin/python
-"""C19 finding (known, not fixed): a PIN without any PSM line.
+"""F22 (property C19; repaired in /repo acb0557): a PIN without any PSM line.
 
 Property C19: "Converting a PIN file ... yields a rectangular table with the same header and one line per PSM ...; an
 optional DefaultDirection line is dropped.  The output is recognised as valid, converting it again changes nothing, and a
 file is reported valid exactly when all its lines have as many fields as the header and it has no DefaultDirection line."
 
-For a PIN with zero PSMs both functions of mokapot.parsers.pin_to_tsv need a second line and leave with a bare
-StopIteration:
-  * header only:               pin_to_valid_tsv raises (after writing the header), is_valid_tsv raises
+Before acb0557 both functions of mokapot.parsers.pin_to_tsv needed a second line and left with a bare StopIteration for a
+PIN with zero PSMs:
+  * header only:               pin_to_valid_tsv raised (after writing the header), is_valid_tsv raised
                                (by the property: converts to itself, and is valid)
-  * header + DefaultDirection: pin_to_valid_tsv writes the header (correct), but that output is not "recognised as
-                               valid" (is_valid_tsv raises) and cannot be "converted again" (raises)
-`mokapot empty.pin` dies in its verify step with the same StopIteration traceback.
+  * header + DefaultDirection: pin_to_valid_tsv wrote the header (correct), but that output was not "recognised as
+                               valid" (is_valid_tsv raised) and could not be "converted again" (raised)
+`mokapot empty.pin` died in its verify step with the same StopIteration traceback.
 
-Run:  PYTHONPATH=/repo /venv/bin/python repo_fixes/C19-finding-zero-psm.py      exit 1 = the defect shows, 0 = it does not."""
+Run:  PYTHONPATH=/repo /venv/bin/python repo_fixes/F22-repro-zero-psm-pin.py    exit 1 = the defect shows (tree before
+acb0557), 0 = it does not."""
 import io
 import sys
 
